@@ -131,7 +131,7 @@ fn c15_0_new_and_remote_window() {
     }
 }
 
-// @verif id=C15.1a props=C15,C10 tier=quick timeout=900
+// @verif id=C15.1a props=C15 tier=quick timeout=900
 // @functions Cubic::on_ack (both early returns)
 // @bounds EVERY f64 state satisfying the invariant; len == 0 with any state, or any len: u32 with cwnd >= rwnd (window already at the peer limit); any now
 // @asserts the state is bit-identical afterwards (zero-length ACKs and ACKs at the peer limit neither grow nor shrink the window); invariant and window bounds
@@ -152,7 +152,7 @@ fn c15_1a_on_ack_early_returns_all_doubles() {
     assert!(inv(&c), "C15: invariant after on_ack");
 }
 
-// @verif id=C15.1b props=C15,C10 tier=quick timeout=900
+// @verif id=C15.1b props=C15 tier=quick timeout=900
 // @functions Cubic::on_ack (congestion-avoidance branch: TCP-friendly and concave/convex regions)
 // @bounds grid states with cwnd >= ssthresh and cwnd < rwnd; mss any u16 >= 1; len any u16 > 0; any now; w_est returns any multiple of 1/16 in (-4096, 4096), NaN, +inf or -inf (TCP-friendly region with arbitrary values); w_cubic returns NaN, +inf or -inf (concave/convex region with extreme values only)
 // @asserts cwnd' finite with 2 <= cwnd' <= max(rwnd, 2) whatever the curve evaluates to; ssthresh/w_max/mss/rwnd untouched; invariant and window bounds
@@ -178,7 +178,7 @@ fn c15_1b_on_ack_congestion_avoidance_grid() {
     assert!(inv(&c) && window_sane(&c), "C15: invariant and window bounds after on_ack");
 }
 
-// @verif id=C15.2a props=C15,C05,C06,C10 tier=quick timeout=900
+// @verif id=C15.2a props=C15,C05,C06 tier=quick timeout=900
 // @functions Cubic::on_retransmission_timeout
 // @bounds grid states; mss any u16 >= 1
 // @asserts cwnd' == 1 segment (the dispatcher sends a single segment: clamped window == min(2, rwnd)); the clamped window never increases; ssthresh' >= 2 and == max(0.7 * cwnd, 2); w_max' == cwnd; invariant
@@ -199,7 +199,7 @@ fn c15_2a_rto_grid() {
     assert!(inv(&c) && window_sane(&c), "C15: invariant and window bounds after RTO");
 }
 
-// @verif id=C15.2b props=C15,C06,C10 tier=quick timeout=900
+// @verif id=C15.2b props=C15,C06 tier=quick timeout=900
 // @functions Cubic::on_enter_recovery
 // @bounds grid states; calc_k returns ANY f64
 // @asserts cwnd' == 0.7 * cwnd; ssthresh' == max(cwnd', 2) (0.7 of the previous window, at least two segments); w_max_last' == cwnd; last_congestion_event' == now; rwnd/mss untouched
@@ -222,7 +222,7 @@ fn c15_2b_enter_recovery_grid() {
     assert!(c.w_max.is_finite() && c.w_max >= 0.0, "C15: w_max stays a finite non-negative number");
 }
 
-// @verif id=C15.2c props=C15,C06,C10 tier=quick timeout=900
+// @verif id=C15.2c props=C15,C06 tier=quick timeout=900
 // @functions Cubic::on_enter_recovery, Cubic::on_retransmission_timeout
 // @bounds grid states: cwnd, rwnd, ssthresh, w_max in {n/16 : n < 65536} (windows up to 4096 MSS in 1/16 steps), mss any u16 >= 1
 // @asserts neither loss event increases the clamped window (needs 0.7*x <= x, decided on the grid); cwnd' stays finite > 0; invariant preserved
@@ -246,7 +246,7 @@ fn c15_2c_loss_events_never_increase_window_grid() {
     assert!(inv(&c), "C15: invariant after a loss event");
 }
 
-// @verif id=C15.3 props=C15,C05,C10 tier=quick timeout=900
+// @verif id=C15.3 props=C15,C05 tier=quick timeout=900
 // @functions Cubic::on_ack (slow start), Cubic::window
 // @bounds grid states with cwnd < ssthresh, cwnd < rwnd, 2 <= cwnd; mss a power of two 1..=32768 (the quotient len/mss is then exact); len: u16 > 0
 // @asserts cwnd' == max(min(cwnd + len/mss, rwnd), 2); hence growth in bytes cwnd'*mss - cwnd*mss <= len: in slow start one ACK grows the window by at most the bytes it acknowledged
@@ -276,7 +276,7 @@ fn c15_3_slow_start_growth_bounded_by_acked_bytes_grid() {
     assert!((c.cwnd - pre.cwnd) * pre.mss as f64 <= len as f64, "C15: in slow start one ACK grows the window by at most the bytes it acknowledged");
 }
 
-// @verif id=C15.4a props=C15,C10 tier=quick timeout=900
+// @verif id=C15.4a props=C15 tier=quick timeout=900
 // @functions Cubic::set_mss
 // @bounds EVERY f64 state satisfying the invariant; new mss any u16 >= 1
 // @asserts unchanged mss: identity (bit-identical state); changed mss: mss' == new value, rwnd, k, last_congestion_event untouched, cwnd' is NOT reset (positive, finite or overflowed only if the pre-state was huge)
@@ -300,7 +300,7 @@ fn c15_4a_set_mss_all_doubles() {
     }
 }
 
-// @verif id=C15.4b props=C15,C10 tier=quick timeout=900
+// @verif id=C15.4b props=C15 tier=quick timeout=900
 // @functions Cubic::set_mss
 // @bounds grid states; old and new mss powers of two in 1..=32768 (rescaling by a power of two is exact in binary floating point)
 // @asserts cwnd'*mss' == cwnd*mss exactly (same bytes), same factor for ssthresh, w_max, w_max_last
@@ -347,7 +347,7 @@ fn c15_5_on_recovered_all_doubles() {
     let _ = c.sshthresh();
 }
 
-// @verif id=C15.6 props=C15,C05,C10 tier=quick timeout=900
+// @verif id=C15.6 props=C15,C05 tier=quick timeout=900
 // @functions Cubic::window
 // @bounds grid states; mss a power of two 1..=32768; peer window = m/16 segments
 // @asserts window() in bytes <= ceil(rwnd * mss) (never above the peer window) and >= floor(min(2, rwnd) * mss) (two segments or the peer window if smaller)
